@@ -50,6 +50,9 @@ CLAIMS = {
  "C19": ("exploration", "8.C19", "deterministic simulation of two complete stacks activating with seeded option settings; negotiated parameters compared with the ATR/PSL/PAX bytes captured on the simulated air; later frames measured",
          "Seeded grid sampling over role x brs x lri x lrt x rwt x miu (boundary values) x lto x agf x lsc on both devices: send-miu/recv-lto/send-wks/send-lsc of each side equal what the peer's PAX bytes carry on the wire, NFC-DEP payload limits follow the peer's LR (minus DID/NAD), bit rate equals the PSL selection, the options given to connect() appear on the air, and all later DEP frames and the largest UI stay within the limits.",
          "sampling of the grid (900 activations quick, 150 k thorough), not its full enumeration"),
+ "C07": ("exploration", "8.C07", "deterministic simulation with a byzantine peer: mutated/generated bytes at every protocol position into live stacks (pipe MAC, simulated UDP air), thread liveness judged by the scheduler",
+         "Five harnesses: (llcp) a real link controller with live sockets, real SNEP/handover servers and application threads against a byzantine peer on the pipe MAC (mutated general bytes, grammar-aware LLCP mutants, deep AGF nesting, SNL floods, sequence abuse) plus every frame of length <= 2 exhaustively, one conversation each; (dep) a real stack in connect(llcp) over the real udp driver against a byzantine node sending mutated ATR/PSL/DEP/DSL/RLS at protocol position k in either role; (app) malformed SNEP/handover fragments against the real servers and clients; (tt3) generated commands into Type3TagEmulation.process_command. Oracle: only documented exception types, no thread dies, no thread stays blocked, connect() returns.",
+         "host link errors are not injected here (C13); secure LLCP (OpenSSL) is not available in the sandbox"),
 }
 NA = {
  "C11": "pure encode/decode function of its argument: no schedule, clock, fault, peer or history enters the statement; deterministic simulation adds nothing over input generation (DESIGN.md section 9)",
